@@ -3,6 +3,8 @@
 package main
 
 import (
+	"github.com/nais/wonderwall/pkg/config"
+	"fmt"
 	"net/http"
 	"net/url"
 	"sort"
@@ -71,7 +73,7 @@ func runC16(c *ctx) {
 	}
 	// (b) proxy + server on one store
 	o := sutOpts{mode: "sso-server", ingresses: []string{"http://sso.example.com"}, ssoDomain: "example.com", ssoDefaultURL: "http://app.example.com/", ssoServerURL: "http://sso.example.com",
-		tokenDuration: 10 * time.Minute, inactivity: 30 * time.Minute}
+		tokenDuration: 10 * time.Minute, inactivity: 30 * time.Minute, rateLimit: &config.RateLimit{Enabled: true, Logins: 3, Window: 5 * time.Second}}
 	s := newSut(o)
 	defer s.close()
 	var mu sync.Mutex
@@ -137,6 +139,20 @@ func runC16(c *ctx) {
 		// make the session refreshable again through the server (so the proxy sees fresh and stale tokens)
 		b.do(srv, "POST", "http://sso.example.com/oauth2/session/refresh", nil)
 		take("S")
+	}
+	// (c0) a browser that already has a session is sent to the SSO server's login again and again (the login rate limit counts): every counter cookie it gets -
+	// the first AND the later ones - is scoped to the SSO domain like all the others
+	rb := newBrowser()
+	if _, err := s.login(rb, srv, "http://sso.example.com", ""); err != nil {
+		panic(err)
+	}
+	for i := 0; i < 5; i++ {
+		resp := rb.do(srv, "GET", "http://sso.example.com/oauth2/login", http.Header{"Sec-Fetch-Mode": {"navigate"}, "Sec-Fetch-Dest": {"document"}})
+		for _, ck := range resp.Cookies {
+			c.count("ssocookie:relogin:" + ck.Name)
+			c.emit("ssocookie", "host", hx("sso.example.com"), "op", hx(fmt.Sprintf("/oauth2/login (visit %d with a session)", i+1)), "status", resp.Status, "name", hx(ck.Name), "domain", hx(ck.Domain),
+				"clear", ck.MaxAge < 0, "ssodomain", hx("example.com"), "httponly", ck.HttpOnly, "path", hx(ck.Path))
+		}
 	}
 	// (c) the SSO server reached under a Host that is NOT (literally) under the SSO domain - relayed by a proxy to a cluster-internal address, an IP, a Host with
 	// a port: whatever cookie it sets or clears there is still scoped to the SSO domain (otherwise a domain-wide cookie is never cleared / a host-only one is set)
